@@ -15,6 +15,7 @@ Apply(e) ==
     [] e.op = "add"          -> Add(e.name, e.key, e.id, e.isnull)
     [] e.op = "locate"       -> Locate(e.name, e.key, e.ret)
     [] e.op = "remove"       -> Remove(e.index)
+    [] e.op = "addagain"     -> AddAgain(e.index)
     [] e.op = "removebyname" -> RemoveByName(e.key)
     [] e.op = "clear"        -> Clear
     [] e.op = "clearvalues"  -> ClearValues
